@@ -262,7 +262,7 @@ size_type g_first;                  /* index of the first stored initializer */
 size_type g_ids;                    /* number of track ids drawn from the event counter */
 size_type g_inplace;                /* 1 if a secondary was initialised in the parent's slot */
 size_type g_k; size_type g_oldk;    /* witness initializer index and its track id before (frame) */
-size_type g_vp[66];                 /* ghost: g_vp[k] = number of valid secondaries among the first k (precondition witness, used by instance) */
+size_type g_vp[18];                 /* ghost: g_vp[k] = number of valid secondaries among the first k (precondition witness, used by instance) */
 size_type g_nsec;
 /* make_track_id (enforced in c02_make_track_id): returns the event's counter and increments it */
 size_type make_track_id(TrackInitStateData* data, size_type event)
@@ -281,8 +281,8 @@ __CPROVER_ensures(self->state->status[tid] == TS_initializing && self->state->tr
 PSE_RULES = [
     StripPP(r"!CELER_DEVICE_COMPILE", keep_else=False, fires="*", note="host logging block dropped"),
     Rule(r"state->size\(\)", "self->state->size_", 1, note="CoreStateData::size()"),
-    Rule(r"SimTrackView sim\(params->sim, state->sim, tid\);", "SimTrackView sim = {self->state, tid};", 1, note="view construction"),
-    Rule(r"auto& data = state->init;", "TrackInitStateData* data = &self->state->init; g_writes = 0; g_ids = 0; g_inplace = 0; g_first = INVALID_ID; /* ghost init */", 1, note="reference -> pointer; ghost init"),
+    Rule(r"SimTrackView sim\(params->sim, state->sim, tid\);", "SimTrackView sim = {self->state, tid}; g_st0 = self->state->status[tid]; g_writes = 0; g_ids = 0; g_inplace = 0; g_first = INVALID_ID; /* ghost init */", 1, note="view construction; ghost init"),
+    Rule(r"auto& data = state->init;", "TrackInitStateData* data = &self->state->init;", 1, note="reference -> pointer"),
     Rule(r"\bdata\.", "data->", "*", note="reference -> pointer"),
     Rule(r"\bcounters\.", "self->counters.", "*", note="executor data member"),
     Rule(r"bool initialized = false;", "bool initialized = 0;", 1, note="bool literal"),
@@ -290,7 +290,7 @@ PSE_RULES = [
     Rule(r"PhysicsStepView const phys_step\(params->physics, state->physics, tid\);", "SpanSecondary sp_ = self->state->secondaries[tid];", 1, note="view -> the span it returns"),
     Rule(r"for \(auto const& secondary : phys_step\.secondaries\(\)\)\s*\{", "for (size_type si_ = 0; si_ < sp_.size; ++si_)\n    {\n        Secondary const* secondary = &sp_.ptr[si_];\n"
          "        /* ghost: instance at element si_ of the precondition `g_vp counts the valid secondaries` */\n"
-         "        __CPROVER_assume(g_vp[si_ + 1] == g_vp[si_] + (secondary->particle_id != INVALID_ID ? 1 : 0));", 1, note="range-for over a Span -> index loop; ghost instance"),
+         "        __CPROVER_assume(g_vp[si_ + 1] == g_vp[si_] + (secondary->particle_id != INVALID_ID ? 1 : 0) && g_vp[si_ + 1] <= g_vp[sp_.size]);", 1, note="range-for over a Span -> index loop; ghost instance"),
     Rule(r"if \(secondary\)", "if (secondary->particle_id != INVALID_ID)", 1, note="Secondary::operator bool"),
     Rule(r"CELER_ASSERT\(secondary\.energy > zero_quantity\(\)\s*&& is_soft_unit_vector\(secondary\.direction\)\);", "/* NOT PROMOTED: CELER_ASSERT(secondary.energy > 0 && unit direction) -- physics of the interactor (C04) */", 1, note="in-body assert not promoted"),
     Rule(r"GeoTrackView geo\(params->geometry, state->geometry, tid\);", "", 1, note="geometry view dropped (position abstracted)"),
@@ -316,38 +316,42 @@ PSE_RULES = [
     Rule(r"sim\.status\(TS_inactive\);", "self->state->status[tid] = TS_inactive;", 1, note="view setter"),
     LoopContracts([
         "    __CPROVER_assigns(si_, offset, initialized, g_writes, g_first, g_ids, g_inplace, self->state->status[tid], self->state->track_id[tid], __CPROVER_object_whole(data->initializers), __CPROVER_object_whole(data->parents), __CPROVER_object_whole(data->track_counters))\n"
-        "    __CPROVER_loop_invariant(si_ <= sp_.size && g_vp[si_] <= g_vp[sp_.size] && g_inplace == (initialized ? 1 : 0) && g_inplace <= 1)\n"
+        "    __CPROVER_loop_invariant(si_ <= sp_.size && g_vp[si_] <= g_vp[sp_.size] && g_inplace == (initialized ? 1 : 0) && g_inplace <= 1 && g_writes <= 16 && g_vp[si_] <= 16 && g_off0 <= 1000000)\n"
         "    __CPROVER_loop_invariant(g_ids == g_vp[si_] && g_writes + g_inplace == g_vp[si_] && offset + g_writes == g_off0)\n"
+        "    __CPROVER_loop_invariant(data->track_counters[self->state->event_id[tid]] == g_tc0 + g_ids && g_ids <= 16)\n"
         "    __CPROVER_loop_invariant(g_writes > 0 ==> g_first == self->counters.num_initializers - g_off0)\n"
+        "    /* loop-constant fact from the precondition, restated on the entry status g_st0: the slot's own count fits behind its prefix */\n"
+        "    __CPROVER_loop_invariant(g_off0 <= self->counters.num_secondaries && g_off0 + ((g_st0 != TS_alive && self->params->init.track_order != TO_init_charge && g_vp[sp_.size] > 0) ? 1 : 0) >= g_vp[sp_.size])\n"
         "    __CPROVER_loop_invariant((initialized || g_st0 == TS_alive || self->params->init.track_order == TO_init_charge) ? 1 : g_vp[si_] == 0)\n"
         "    __CPROVER_loop_invariant(g_k < data->capacity && !(g_writes > 0 && g_k >= g_first && g_k < g_first + g_writes) ==> data->initializers[g_k].sim.track_id == g_oldk)\n"
         "    __CPROVER_loop_invariant(initialized ? self->state->status[tid] == TS_initializing : self->state->status[tid] == g_st0)\n"
+        "    __CPROVER_loop_invariant(initialized ? (g_st0 != TS_alive && self->params->init.track_order != TO_init_charge && g_vp[si_] > 0) : 1)\n"
         "    __CPROVER_decreases(sp_.size - si_)\n"]),
 ]
 
 
 def build_process_secondaries(ctx):
     pc = ctx.func(PS, r"^ProcessSecondariesExecutor::operator\(\)\(TrackSlotId tid\) const", PSE_RULES, name="ProcessSecondariesExecutor::operator()")
-    body = pc.body.replace("size_type offset = self->counters.num_secondaries - data->secondary_counts[tid];", "size_type offset = self->counters.num_secondaries - data->secondary_counts[tid]; g_off0 = offset; g_st0 = self->state->status[tid]; /* ghost */")
+    body = pc.body.replace("size_type offset = self->counters.num_secondaries - data->secondary_counts[tid];", "size_type offset = self->counters.num_secondaries - data->secondary_counts[tid]; g_off0 = offset; g_tc0 = data->track_counters[self->state->event_id[tid]]; /* ghost */")
     return (HDR + ID_TYPES + PSE_MODEL + """
-size_type g_off0; int g_st0;
+size_type g_off0; int g_st0; size_type g_tc0;
 #define ST (self->state)
 #define NVALID (g_vp[ST->secondaries[tid].size])
 #define WILL_INPLACE (ST->status[tid] != TS_alive && self->params->init.track_order != TO_init_charge && NVALID > 0)
 #define NSTORE (NVALID - (WILL_INPLACE ? 1 : 0))
 void PSE_call(Executor const* self, TrackSlotId tid)
-__CPROVER_requires(self != 0 && self->params != 0 && ST != 0 && ST->size_ >= 1 && ST->size_ <= 8 && tid < ST->size_)      /* own CELER_EXPECT */
+__CPROVER_requires(self != 0 && self->params != 0 && ST != 0 && ST->size_ >= 1 && ST->size_ <= 4 && tid < ST->size_)      /* own CELER_EXPECT */
 __CPROVER_requires(__CPROVER_rw_ok(ST->status, ST->size_ * sizeof(int)) && __CPROVER_rw_ok(ST->track_id, ST->size_ * sizeof(size_type)) && __CPROVER_r_ok(ST->event_id, ST->size_ * sizeof(size_type)) && __CPROVER_r_ok(ST->time, ST->size_ * sizeof(real_type)))
-__CPROVER_requires(__CPROVER_r_ok(ST->secondaries, ST->size_ * sizeof(SpanSecondary)) && ST->secondaries[tid].size <= 64 && __CPROVER_r_ok(ST->secondaries[tid].ptr, ST->secondaries[tid].size * sizeof(Secondary)))
-__CPROVER_requires(ST->init.capacity >= 1 && ST->init.capacity <= 32 && __CPROVER_rw_ok(ST->init.initializers, ST->init.capacity * sizeof(TrackInitializer)) && __CPROVER_r_ok(ST->init.secondary_counts, ST->size_ * sizeof(size_type)))
-__CPROVER_requires(ST->init.parents_size == ST->size_ && __CPROVER_rw_ok(ST->init.parents, ST->size_ * sizeof(TrackSlotId)) && ST->init.num_events >= 1 && ST->init.num_events <= 4 && __CPROVER_rw_ok(ST->init.track_counters, ST->init.num_events * sizeof(size_type)))
+__CPROVER_requires(__CPROVER_r_ok(ST->secondaries, ST->size_ * sizeof(SpanSecondary)) && ST->secondaries[tid].size <= 16 && __CPROVER_r_ok(ST->secondaries[tid].ptr, ST->secondaries[tid].size * sizeof(Secondary)))
+__CPROVER_requires(ST->init.capacity >= 1 && ST->init.capacity <= 16 && __CPROVER_rw_ok(ST->init.initializers, ST->init.capacity * sizeof(TrackInitializer)) && __CPROVER_r_ok(ST->init.secondary_counts, ST->size_ * sizeof(size_type)))
+__CPROVER_requires(ST->init.parents_size == ST->size_ && __CPROVER_rw_ok(ST->init.parents, ST->size_ * sizeof(TrackSlotId)) && ST->init.num_events >= 1 && ST->init.num_events <= 2 && __CPROVER_rw_ok(ST->init.track_counters, ST->init.num_events * sizeof(size_type)))
 __CPROVER_requires(ST->status[tid] >= 0 && ST->status[tid] <= 4 && ST->status[tid] != TS_initializing && ST->track_id[tid] != INVALID_ID && ST->event_id[tid] < ST->init.num_events && ST->init.track_counters[ST->event_id[tid]] < 1000000)
 /* what LocateAlive + exclusive_scan established: secondary_counts[tid] is the prefix sum of the counts of the slots before tid, and this slot's own count
    (valid secondaries minus the one initialised in place, c02_locate_alive) fits behind it; capacity was validated (c16_efs_step) */
 __CPROVER_requires(g_vp[0] == 0 && (ST->status[tid] != TS_inactive ==> (unsigned __int128)ST->init.secondary_counts[tid] + NSTORE <= self->counters.num_secondaries))
-__CPROVER_requires(self->counters.num_secondaries <= self->counters.num_initializers && self->counters.num_initializers <= ST->init.capacity)
+__CPROVER_requires(self->counters.num_secondaries <= self->counters.num_initializers && self->counters.num_initializers <= ST->init.capacity && g_vp[ST->secondaries[tid].size] <= 16)
 __CPROVER_requires(g_k < ST->init.capacity && g_oldk == ST->init.initializers[g_k].sim.track_id)
-__CPROVER_assigns(g_writes, g_first, g_ids, g_inplace, g_off0, g_st0, ST->status[tid], ST->track_id[tid], __CPROVER_object_whole(ST->init.initializers), __CPROVER_object_whole(ST->init.parents), __CPROVER_object_whole(ST->init.track_counters))
+__CPROVER_assigns(g_writes, g_first, g_ids, g_inplace, g_off0, g_st0, g_tc0, ST->status[tid], ST->track_id[tid], __CPROVER_object_whole(ST->init.initializers), __CPROVER_object_whole(ST->init.parents), __CPROVER_object_whole(ST->init.track_counters))
 /* an inactive slot creates nothing from its stale data */
 __CPROVER_ensures(g_st0 == TS_inactive ==> (g_writes == 0 && g_ids == 0 && g_inplace == 0))
 /* every valid secondary gets exactly one event-unique id and becomes exactly one track: either stored as an initializer or initialised in the parent's slot */
@@ -360,7 +364,7 @@ __CPROVER_ensures(ST->status[tid] != TS_killed)
 {""" + body + """}
 void h_pse(void)
 {
-    size_type n, tid, k, ns, cap, nev; int order; __CPROVER_assume(n >= 1 && n <= 8 && ns <= 64 && cap >= 1 && cap <= 32 && nev >= 1 && nev <= 4);
+    size_type n, tid, k, ns, cap, nev; int order; __CPROVER_assume(n >= 1 && n <= 4 && ns <= 16 && cap >= 1 && cap <= 16 && nev >= 1 && nev <= 2);
     CoreParamsData p = {{order}};
     CoreStateData s = {malloc(n * sizeof(int)), malloc(n * sizeof(size_type)), malloc(n * sizeof(size_type)), malloc(n * sizeof(real_type)), malloc(n * sizeof(SpanSecondary)), n,
                        {malloc(cap * sizeof(TrackInitializer)), cap, malloc(n * sizeof(size_type)), malloc(n * sizeof(TrackSlotId)), n, malloc(nev * sizeof(size_type)), nev}};
